@@ -20,7 +20,9 @@ func TestC19TxSignDigest(t *testing.T) {
 	rec := ev.New("C19", "tx-sign-digest")
 	defer rec.Flush()
 	fields := []string{"Nonce", "Account", "Recipient", "Amount", "Payload", "GasLimit", "GasPrice", "Type", "ChainIdHash", "Sign"}
-	bs := func(t *rapid.T, l string, min, max int) []byte { return rapid.SliceOfN(rapid.Byte(), min, max).Draw(t, l) }
+	bs := func(t *rapid.T, l string, min, max int) []byte {
+		return rapid.SliceOfN(rapid.Byte(), min, max).Draw(t, l)
+	}
 	rapid.Check(t, func(t *rapid.T) {
 		seed := bs(t, "keyseed", 32, 32)
 		seed[0] |= 1
